@@ -64,13 +64,75 @@ def enum_name(prog, enum, value):
     return str(value)
 
 
+def flag_definitions(fn):
+    """locals assigned exactly once (declaration initialiser or one assignment) from a comparison / logical expression:
+    {name: (defining node, expression)} - a later test of the flag is a test of that expression as long as the
+    expression's operands have not been stored to in between"""
+    cache = getattr(fn, "_flagdefs", None)
+    if cache is not None:
+        return cache
+    count, defs = {}, {}
+    for n in fn.nodes.values():
+        if n.k == "DeclStmt":
+            for d in n.get("decls", []):
+                if d["type"].get("tk") in ("int", "bool"):
+                    count[d["name"]] = count.get(d["name"], 0) + (1 if "init" in d else 0)
+                    if "init" in d:
+                        defs[d["name"]] = (n, fn.nodes[d["init"]])
+        else:
+            t = C.store_target(n)
+            if t is not None and t.k == "DeclRefExpr" and t["decl"]["kind"] == "local":
+                count[t["decl"]["name"]] = count.get(t["decl"]["name"], 0) + 1
+                if n.get("op") == "=":
+                    defs[t["decl"]["name"]] = (n, n.child(1))
+    out = {}
+    for name, (dn, ex) in defs.items():
+        if count.get(name) != 1:
+            continue
+        e = ex.strip_all_casts()
+        while e.k == "ParenExpr":
+            e = e.child(0).strip_all_casts()
+        if e.k == "BinaryOperator" and e.get("op") in ("<", ">", "<=", ">=", "==", "!=", "&&", "||") or \
+                (e.k == "UnaryOperator" and e.get("op") == "!"):
+            out[name] = (dn, e)
+    fn._flagdefs = out
+    return out
+
+
 def facts_at(S, fn, node):
-    """branch facts (atom node, polarity) that must hold just before `node` is evaluated"""
+    """branch facts (atom node, polarity) that must hold just before `node` is evaluated; a fact about a flag local
+    (`more = (r < len)` ... `if (more)`) is expanded into the facts of its defining expression when no operand of that
+    expression can have been stored to between the definition and `node`"""
     pg, st = S.branch_facts(fn)
     p = pg.before(node)
     if p is None or p not in st:
         return None
-    return [(fn.nodes[nid], pol) for nid, pol in st[p]]
+    facts = [(fn.nodes[nid], pol) for nid, pol in st[p]]
+    defs = flag_definitions(fn)
+    if defs:
+        extra = []
+        for a, pol in facts:
+            if isinstance(pol, tuple):
+                continue
+            s_ = a.strip_all_casts()
+            if s_.k == "DeclRefExpr" and s_.get("path") in defs:
+                dn, ex = defs[s_["path"]]
+                ops = {x.get("path") for x in ex.walk() if x.k in ("DeclRefExpr", "MemberExpr") and x.get("path")}
+                q = pg.after(dn)
+                if q is None:
+                    continue
+                stop = lambda e, dn=dn: e.kind == "elem" and e.node is dn      # passing the definition again refreshes the flag
+                between = pg.reachable([q], blocked_edge=stop)
+                dirty = False
+                for n2, t2 in C.stores(fn):
+                    if t2.get("path") in ops and n2 is not dn and pg.before(n2) in between and \
+                            p in pg.reachable([pg.after(n2)] if pg.after(n2) else [], blocked_edge=stop):
+                        dirty = True
+                        break
+                if not dirty:
+                    extra += list(C.cond_facts(ex, bool(pol)))
+        facts += extra
+    return facts
 
 
 def path_to(fn, target_block_ids, start=None):
